@@ -85,8 +85,8 @@ def d_protocols(g, tier):
 
 MODELS = {
     # name: (module, quick cfg, thorough cfg, parsers, quick vector limit)
-    "framing": ("MC_Framing.tla", "MC_Framing_quick.cfg", "MC_Framing_thorough.cfg", ["A"], 20000),
-    "cache": ("MC_Cache.tla", "MC_Cache_quick.cfg", "MC_Cache_thorough.cfg", ["A", "B"], 7000),
+    "framing": ("MC_Framing.tla", "MC_Framing_quick.cfg", "MC_Framing_thorough.cfg", ["A"], 9000),
+    "cache": ("MC_Cache.tla", "MC_Cache_quick.cfg", "MC_Cache_thorough.cfg", ["A", "B"], 6000),
     "decode": ("MC_Decode.tla", "MC_Decode_quick.cfg", "MC_Decode_thorough.cfg", ["A"], 8000),
 }
 
@@ -117,7 +117,7 @@ def model_run(name, tier, seed):
 def vector_ops(name, tier, seed):
     module, qcfg, tcfg, parsers, limit = MODELS[name]
     m = model_run(name, tier, seed)
-    vecs = vf.read_vectors(m["vectors_file"], limit if tier == "quick" else None, seed)
+    vecs = vf.read_vectors(m["vectors_file"], limit if tier == "quick" else 120000, seed)
     ops = []
     for v in vecs:
         ops += gen.ops_reset(parsers)
@@ -348,5 +348,74 @@ def setup():
 
 
 def selftest():
-    print("selftest: not yet implemented")
-    return 0
+    """shows that the binding binds (DESIGN.md 3.8): (i) a corrupted field of a recorded trace is a finding;
+    (ii) a trace with a hook removed is rejected; (iii) every named deviation, switched on in the bounded
+    model, violates the property it is filed under"""
+    import copy
+    binary = vf.build_harness()
+    wd = os.path.join(vf.OUT, "selftest")
+    shutil.rmtree(wd, ignore_errors=True)
+    os.makedirs(wd)
+    ops = [json.loads(l) for l in open(os.path.join(vf.VERIF, "corpus", "repo_tests.ndjson")) if l.strip()]
+    vf.write_ops(os.path.join(wd, "ops.ndjson"), ops)
+    vf.run_harness(binary, os.path.join(wd, "ops.ndjson"), os.path.join(wd, "trace.ndjson"))
+    lines = [json.loads(l) for l in open(os.path.join(wd, "trace.ndjson"))]
+    ok = True
+    base = vf.tlc_trace(os.path.join(wd, "trace.ndjson"), os.path.join(wd, "t0"))
+    nbase = len(base["findings"])
+    # (i) corruptions
+    def first(pred):
+        return next(i for i, e in enumerate(lines) if e.get("e") == "ret" and pred(e))
+    muts = []
+    i = first(lambda e: e["out"] and e["out"][0]["k"] == "v5" and e["out"][0]["recs"])
+    m = copy.deepcopy(lines); m[i]["out"][0]["recs"][0]["dst_port"] = [9, 9]; muts.append(("v5 record field", m, "C03"))
+    i = first(lambda e: e["out"] and e["out"][0]["k"] == "v9" and any(s["k"] == "data" and s["recs"] for s in e["out"][0]["sets"]))
+    m = copy.deepcopy(lines)
+    st = next(s for s in m[i]["out"][0]["sets"] if s["k"] == "data" and s["recs"])
+    st["recs"][0][0]["v"]["b"] = [x ^ 1 for x in st["recs"][0][0]["v"]["b"]] or [1]; muts.append(("v9 value", m, "C04"))
+    i = first(lambda e: any(c["tmpl"]["ipfix"]["data"] for c in e["caches"]))
+    m = copy.deepcopy(lines); m[i]["caches"][0]["tmpl"]["ipfix"]["data"][0]["def"]["fields"][0]["len"] += 1; muts.append(("cached ipfix template", m, "C06"))
+    i = first(lambda e: e["out"] and e["out"][-1]["k"] == "err")
+    m = copy.deepcopy(lines); m[i]["out"][-1]["rem"] = m[i]["out"][-1]["rem"][:-1]; muts.append(("error remaining bytes", m, "C02"))
+    i = first(lambda e: e["out"] and e["out"][0]["k"] == "v7")
+    m = copy.deepcopy(lines); m[i]["out"][0]["exp"]["bytes"][30] ^= 255; muts.append(("v7 export byte", m, "C08"))
+    for name, m, prop in muts:
+        pth = os.path.join(wd, "mut.ndjson")
+        with open(pth, "w") as f:
+            for e in m:
+                f.write(json.dumps(e) + "\n")
+        r = vf.tlc_trace(pth, os.path.join(wd, "t1"))
+        got = [fd for fd in r["findings"] if fd["sig"][0] == prop]
+        good = len(r["findings"]) > nbase and got
+        print("selftest corrupt %-24s -> %s %s" % (name, "finding" if good else "MISSED", got[0]["sig"] if got else ""))
+        ok = ok and bool(good)
+    # (ii) a removed hook: drop one `ret`
+    i = first(lambda e: True)
+    m = lines[:i] + lines[i + 1:]
+    pth = os.path.join(wd, "mut.ndjson")
+    with open(pth, "w") as f:
+        for e in m:
+            f.write(json.dumps(e) + "\n")
+    try:
+        vf.tlc_trace(pth, os.path.join(wd, "t2"))
+        print("selftest removed-hook -> ACCEPTED (bad)")
+        ok = False
+    except vf.ToolError:
+        print("selftest removed-hook -> rejected")
+    # (iii) deviations as model-level mutants
+    for dev, (module, cfg) in {"IpfixGreedyTemplate": ("MC_Cache.tla", "MC_Cache_quick.cfg"),
+                               "KindPriorityNotRecency": ("MC_Cache.tla", "MC_Cache_quick.cfg"),
+                               "IpfixOptionsTemplateFirstOnly": ("MC_Cache.tla", "MC_Cache_quick.cfg"),
+                               "IpfixStopAfterBadSet": ("MC_Cache.tla", "MC_Cache_quick.cfg")}.items():
+        src = open(os.path.join(vf.SPEC, cfg)).read().replace("Devs = {}", 'Devs = {"%s"}' % dev)
+        tmp = os.path.join(vf.SPEC, "_selftest.cfg")
+        open(tmp, "w").write(src)
+        try:
+            r = vf.tlc_model(module, "_selftest.cfg", os.path.join(wd, "m"), workers=8, timeout=600, want_vectors=False)
+        finally:
+            os.remove(tmp)
+        print("selftest model deviation %-32s -> %s %s" % (dev, "violates" if not r["ok"] else "NO VIOLATION", r["errors"][:1]))
+        ok = ok and not r["ok"]
+    shutil.rmtree(wd, ignore_errors=True)
+    print("selftest", "ok" if ok else "FAILED")
+    return 0 if ok else 2
